@@ -78,6 +78,24 @@ theorem markOob_ok (st : St) (n : Nat) (h : st.cur.pos + n ≤ st.endp) : markOo
 @[simp] theorem bumpHelp_depth (cx : Ctx) (t : Bool) (st : St) (n : Nat) : (bumpHelp cx t st n).depth = st.depth := by
   unfold bumpHelp; split <;> simp
 
+theorem rd_noob (cx : Ctx) (st : St) (off : Nat) (h : st.cur.pos + off < st.endp) : (rd cx st off).2.oob = st.oob := by
+  simp [rd, h]
+
+theorem markOob_noob (st : St) (n : Nat) (h : st.cur.pos + n ≤ st.endp) : (markOob st n).oob = st.oob := by
+  simp [markOob, h]
+
+theorem bump_noob (cx : Ctx) (st : St) (n : Nat) (h : st.cur.pos + n ≤ st.endp) : (bump cx st n).oob = st.oob := by
+  simp [bump, markOob, h]
+
+theorem bumpInThisLine_noob (st : St) (n : Nat) (h : st.cur.pos + n ≤ st.endp) : (bumpInThisLine st n).oob = st.oob := by
+  simp [bumpInThisLine, markOob, h]
+
+theorem bumpHelp_noob (cx : Ctx) (t : Bool) (st : St) (n : Nat) (h : st.cur.pos + n ≤ st.endp) :
+    (bumpHelp cx t st n).oob = st.oob := by
+  unfold bumpHelp; split
+  · exact bump_noob cx st n h
+  · exact bumpInThisLine_noob st n h
+
 /-- What one atom step can do to the state: either leave the cursor alone (any result), or
     succeed and advance it by `k ≤ avail`; end and depth are never touched. -/
 structure AtomFrame (st st' : St) (b : Bool) : Prop where
@@ -86,6 +104,7 @@ structure AtomFrame (st st' : St) (b : Bool) : Prop where
   fail_cur : b = false → st'.cur = st.cur
   mono : st.cur.pos ≤ st'.cur.pos
   inb : st.cur.pos ≤ st.endp → st'.cur.pos ≤ st.endp
+  noob : st.cur.pos ≤ st.endp → st.oob = false → st'.oob = false
 
 theorem eolMatch_frame (cx : Ctx) (st : St) :
     (eolMatch cx st).2.2.endp = st.endp ∧ (eolMatch cx st).2.2.depth = st.depth ∧
@@ -105,13 +124,112 @@ theorem eolMatch_inb (cx : Ctx) (st : St) (hle : st.cur.pos ≤ st.endp) :
   cases cx.eol <;>
   simp [St.avail, rd, bumpToNextLine, bumpToNextLineC, markOob, g0, g1, h0, h1, a10, a13, b10] <;> omega
 
+theorem eolMatch_noob (cx : Ctx) (st : St) (hle : st.cur.pos ≤ st.endp) (ho : st.oob = false) :
+    (eolMatch cx st).2.2.oob = false := by
+  have g0 : 0 < st.endp - st.cur.pos ↔ st.cur.pos < st.endp := by omega
+  have g1 : 1 < st.endp - st.cur.pos ↔ st.cur.pos + 1 < st.endp := by omega
+  have e1 : st.cur.pos + 1 ≤ st.endp ↔ st.cur.pos < st.endp := by omega
+  have e2 : st.cur.pos + 2 ≤ st.endp ↔ st.cur.pos + 1 < st.endp := by omega
+  unfold eolMatch
+  by_cases h0 : st.cur.pos < st.endp <;> by_cases h1 : st.cur.pos + 1 < st.endp <;>
+  by_cases a10 : cx.inp[st.cur.pos]?.getD 0 = 10 <;> by_cases a13 : cx.inp[st.cur.pos]?.getD 0 = 13 <;>
+  by_cases b10 : cx.inp[st.cur.pos + 1]?.getD 0 = 10 <;>
+  cases cx.eol <;>
+  simp [St.avail, rd, bumpToNextLine, bumpToNextLineC, markOob, g0, g1, e1, e2, h0, h1, a10, a13, b10, ho] <;> (try omega)
+
 theorem atomStep_frame (cx : Ctx) (a : Atom) (st : St) :
     AtomFrame st (atomStep cx a st).2 (atomStep cx a st).1 := by
   have he := eolMatch_frame cx st
   have hi := eolMatch_inb cx st
-  cases a <;> simp only [atomStep] <;> (repeat' split) <;>
-    first
-    | (constructor <;> simp_all [St.avail, St.empty] <;> omega)
-    | (constructor <;> simp_all [St.avail, St.empty])
+  have hno := eolMatch_noob cx st
+  have triv : ∀ b, AtomFrame st st b := fun b => ⟨rfl, rfl, fun _ => rfl, Nat.le_refl _, id, fun _ h => h⟩
+  -- a successful step that consumes `n ≤ avail` bytes after reads inside the window
+  have adv : ∀ (st' : St) (n : Nat), st'.endp = st.endp → st'.depth = st.depth → st'.cur.pos = st.cur.pos + n →
+      (st.cur.pos ≤ st.endp → st.cur.pos + n ≤ st.endp) → (st.cur.pos ≤ st.endp → st'.oob = st.oob) →
+      AtomFrame st st' true := by
+    intro st' n h1 h2 h3 h4 h5
+    exact ⟨h1, h2, by simp, by omega, fun hv => by have := h4 hv; omega, fun hv ho => by rw [h5 hv]; exact ho⟩
+  -- reading one byte when the window is not empty changes nothing but is in bounds
+  have rd0 : ¬ st.cur.pos = st.endp → st.cur.pos ≤ st.endp → (rd cx st 0).2 = st := by
+    intro hne hle; exact rd_oob cx st 0 (by omega)
+  cases a with
+  | any =>
+    simp only [atomStep, St.empty, beq_iff_eq]
+    split
+    · exact triv _
+    · rename_i hne
+      exact adv _ 1 (by simp) (by simp) (by simp) (by omega) (fun hv => bump_noob cx st 1 (by omega))
+  | one found cs =>
+    simp only [atomStep, St.empty, beq_iff_eq]
+    split
+    · exact triv _
+    · rename_i hne
+      split
+      · refine adv _ 1 (by simp) (by simp) (by simp) (by omega) (fun hv => ?_)
+        rw [bumpHelp_noob _ _ _ _ (by simp; omega), rd0 hne hv]
+      · exact ⟨by simp, by simp, fun _ => by simp, by simp, fun hv => by simpa using hv, fun hv ho => by rw [rd0 hne hv]; exact ho⟩
+  | range found lo hi =>
+    simp only [atomStep, St.empty, beq_iff_eq]
+    split
+    · exact triv _
+    · rename_i hne
+      split
+      · refine adv _ 1 (by simp) (by simp) (by simp) (by omega) (fun hv => ?_)
+        rw [bumpHelp_noob _ _ _ _ (by simp; omega), rd0 hne hv]
+      · exact ⟨by simp, by simp, fun _ => by simp, by simp, fun hv => by simpa using hv, fun hv ho => by rw [rd0 hne hv]; exact ho⟩
+  | ranges rs single =>
+    simp only [atomStep, St.empty, beq_iff_eq]
+    split
+    · exact triv _
+    · rename_i hne
+      split
+      · refine adv _ 1 (by simp) (by simp) (by simp) (by omega) (fun hv => ?_)
+        rw [bumpHelp_noob _ _ _ _ (by simp; omega), rd0 hne hv]
+      · exact ⟨by simp, by simp, fun _ => by simp, by simp, fun hv => by simpa using hv, fun hv ho => by rw [rd0 hne hv]; exact ho⟩
+  | string cs =>
+    simp only [atomStep, St.avail]
+    by_cases hsz : st.endp - st.cur.pos ≥ cs.length
+    · by_cases hc : cmpBytes cx (fun x1 x2 => x1 == x2) st.cur.pos cs = true
+      · simp only [hsz, hc, if_true]
+        exact adv _ cs.length (by simp) (by simp) (by simp) (by omega) (fun hv => bumpHelp_noob _ _ _ _ (by omega))
+      · simp only [hsz, hc, if_true]
+        exact triv _
+    · simp only [hsz, if_false]
+      exact triv _
+  | istring cs =>
+    simp only [atomStep, St.avail]
+    by_cases hsz : st.endp - st.cur.pos ≥ cs.length
+    · by_cases hc : cmpBytes cx icharEqual st.cur.pos cs = true
+      · simp only [hsz, hc, if_true]
+        exact adv _ cs.length (by simp) (by simp) (by simp) (by omega) (fun hv => bumpHelp_noob _ _ _ _ (by omega))
+      · simp only [hsz, hc, if_true]
+        exact triv _
+    · simp only [hsz, if_false]
+      exact triv _
+  | bytes n =>
+    simp only [atomStep, St.avail]
+    by_cases hsz : st.endp - st.cur.pos ≥ n
+    · simp only [hsz, if_true]
+      exact adv _ n (by simp) (by simp) (by simp) (by omega) (fun hv => bump_noob _ _ _ (by omega))
+    · simp only [hsz, if_false]
+      exact triv _
+  | eof => simp only [atomStep]; exact triv _
+  | bof => simp only [atomStep]; exact triv _
+  | bol => simp only [atomStep]; exact triv _
+  | eol =>
+    simp only [atomStep]
+    exact ⟨he.1, he.2.1, he.2.2.1, he.2.2.2, hi, hno⟩
+  | eolf =>
+    simp only [atomStep]
+    refine ⟨he.1, he.2.1, ?_, he.2.2.2, hi, hno⟩
+    intro hb
+    apply he.2.2.1
+    cases h : (eolMatch cx st).1 <;> simp_all
+  | success => simp only [atomStep]; exact triv _
+  | failure => simp only [atomStep]; exact triv _
+  | everything =>
+    simp only [atomStep, St.avail]
+    exact adv _ (st.endp - st.cur.pos) (by simp) (by simp) (by simp) (by omega) (fun hv => bump_noob _ _ _ (by omega))
+  | require n => simp only [atomStep]; exact triv _
 
 end Pegtl
